@@ -339,6 +339,60 @@ pub fn string_families(ctx: &mut Ctx, judge: &mut dyn FnMut(&mut Ctx, Case)) {
     ctx.rng = rng;
 }
 
+/// Operands beyond every small size: strings of 1 KiB .. 1 MiB (with multi-byte characters at and around power-of-two byte offsets)
+/// through every string operator, lists of 1000 .. 70 000 elements and maps of 5000 keys through membership, indexing and equality.
+pub fn big_operands(ctx: &mut Ctx, judge: &mut dyn FnMut(&mut Ctx, Case)) {
+    ctx.align();
+    let none = Value::None;
+    let s = |x: String| Expr::value(x);
+    for b in [1_024usize, 4_096, 8_192, 65_536, 1_048_576] {
+        for pad in [b - 3, b - 2, b - 1, b, b + 1] {
+            if !ctx.mine() {
+                continue;
+            }
+            let text = format!("{}ßΣ€😀{}ǆσ ", " aB".repeat(pad / 3), "x".repeat(b / 3));
+            let text = &text[..];
+            for f in [Expr::trim as fn(Expr) -> Expr, Expr::uppercase, Expr::lowercase, Expr::int, Expr::float, Expr::dec, Expr::datetime, Expr::duration, Expr::neg, Expr::some] {
+                let e = f(s(text.to_string()));
+                judge(ctx, Case { expr: &e, facts: &none, cell: String::new(), family: "big-operands-strings" });
+            }
+            let needle_end: String = text.chars().rev().take(9).collect::<Vec<_>>().into_iter().rev().collect();
+            for (h, n) in [(text.to_string(), needle_end.clone()), (text.to_string(), "😀x".to_string()), (text.to_string(), "Bx".to_string()), (needle_end.clone(), text.to_string()), (text.to_string(), text.to_string()), (text.to_string(), format!("{text}!"))] {
+                for e in [Expr::contains(s(h.clone()), s(n.clone())), Expr::eq(s(h.clone()), s(n.clone())), Expr::lt(s(h.clone()), s(n.clone())), Expr::gte(s(h.clone()), s(n.clone())), Expr::add(s(h.clone()), s(n.clone()))] {
+                    judge(ctx, Case { expr: &e, facts: &none, cell: String::new(), family: "big-operands-strings" });
+                }
+            }
+            // a numeric string padded to this length
+            let padded = format!("{}42", "0".repeat(pad));
+            for f in [Expr::int as fn(Expr) -> Expr, Expr::float, Expr::dec] {
+                let e = f(s(padded.clone()));
+                judge(ctx, Case { expr: &e, facts: &none, cell: String::new(), family: "big-operands-strings" });
+            }
+        }
+    }
+    for n in [255usize, 256, 1_000, 4_096, 65_535, 65_536, 70_000] {
+        if !ctx.mine() {
+            continue;
+        }
+        let list: Vec<Value> = (0..n).map(|i| if i % 1000 == 999 { Value::String(format!("s{i}")) } else { Value::Int(i as i128) }).collect();
+        let mut other = list.clone();
+        *other.last_mut().unwrap() = Value::Int(-1);
+        let m: std::collections::BTreeMap<String, Value> = (0..n.min(5_000)).map(|i| (format!("key{i:05}"), Value::Int(i as i128))).collect();
+        let facts = Value::Map([("l".to_string(), Value::Vec(list.clone())), ("o".to_string(), Value::Vec(other)), ("m".to_string(), Value::Map(m))].into_iter().collect());
+        let l = || Expr::reff("l");
+        let exprs = vec![
+            Expr::contains(l(), Expr::value(0)), Expr::contains(l(), Expr::value((n - 1) as i128)), Expr::contains(l(), Expr::value(n as i128)), Expr::contains(l(), Expr::value(format!("s{}", 999))), Expr::contains(l(), Expr::value(0.0)),
+            Expr::contains(Expr::reff("m"), Expr::value("key00000".to_string())), Expr::contains(Expr::reff("m"), Expr::value(format!("key{:05}", n.min(5_000) - 1))), Expr::contains(Expr::reff("m"), Expr::value(format!("key{:05}", n.min(5_000)))),
+            Expr::eq(l(), l()), Expr::eq(l(), Expr::reff("o")), Expr::neq(l(), Expr::reff("o")), Expr::eq(Expr::reff("m"), Expr::reff("m")),
+            Expr::index(l(), Index::from(n - 1)), Expr::index(l(), Index::from(n)), Expr::index(l(), Index::from(0usize)), Expr::index(Expr::reff("m"), Index::from(format!("key{:05}", n.min(5_000) / 2).as_str())),
+            Expr::add(l(), Expr::reff("o")), Expr::lt(l(), Expr::reff("o")), Expr::some(l()), Expr::neg(l()),
+        ];
+        for e in &exprs {
+            judge(ctx, Case { expr: e, facts: &facts, cell: String::new(), family: "big-operands-collections" });
+        }
+    }
+}
+
 pub fn the_pool() -> Pool {
     pool()
 }
